@@ -236,6 +236,14 @@ pub fn run(out: &mut Out, seed: u64, tier: &str) {
         m.name = format!("water-in-lattice-{}", side);
         larges.push(m);
     }
+    // sizes the changed source lines mention (as atom counts or as pair counts): water in a lattice of that many atoms
+    for n in hints().atom_counts(24, 1300) {
+        let mut m = library()[0].clone();
+        for p in m.xs.iter_mut() { p[0] -= 3.1; p[1] -= 2.9; p[2] -= 3.3; }
+        for q in lattice_points(n - 3, 3.7) { m.zs.push(*rng.pick(&[2usize, 10, 18])); m.xs.push([q[0] + rng.range(-0.2, 0.2), q[1] + rng.range(-0.2, 0.2), q[2] + rng.range(-0.2, 0.2)]); }
+        m.name = format!("hinted-size-{}", n);
+        larges.push(m);
+    }
     for m in larges.iter() {
         if m.min_distance() < 0.6 { continue; }
         let mol = match catch(|| m.build()) { Some(x) => x, None => continue };
